@@ -163,6 +163,44 @@ func malleate(sig []byte) []byte {
 	return out
 }
 
+
+// signWithNonce: a textbook ECDSA signature [R || S || V] (canonical low s) over hash with the caller's nonce k.
+// /repo's crypto.Sign derives k from (key, hash) (RFC 6979) and always yields the same bytes; any key holder can sign
+// the same hash again with another k: a DIFFERENT, individually valid signature by the SAME signer.
+func signWithNonce(hash []byte, prv *ecdsa.PrivateKey, k *big.Int) []byte {
+	curve := crypto.S256()
+	n := curve.Params().N
+	k = new(big.Int).Mod(k, n)
+	if k.Sign() == 0 {
+		k.SetInt64(7)
+	}
+	rx, _ := curve.ScalarBaseMult(k.Bytes())
+	r := new(big.Int).Mod(rx, n)
+	z := new(big.Int).SetBytes(hash)
+	s := new(big.Int).Mul(r, prv.D)
+	s.Add(s, z)
+	s.Mul(s, new(big.Int).ModInverse(k, n))
+	s.Mod(s, n)
+	if s.Cmp(new(big.Int).Rsh(n, 1)) > 0 {
+		s.Sub(n, s)
+	}
+	if r.Sign() == 0 || s.Sign() == 0 {
+		return nil
+	}
+	want := crypto.PubkeyToAddress(prv.PublicKey)
+	for v := byte(0); v < 2; v++ {
+		sig := make([]byte, 65)
+		copy(sig[32-len(r.Bytes()):32], r.Bytes())
+		copy(sig[64-len(s.Bytes()):64], s.Bytes())
+		sig[64] = v
+		pub, err := crypto.Ecrecover(hash, sig)
+		if err == nil && crypto.PubToAddress(pub) == want {
+			return sig
+		}
+	}
+	return nil
+}
+
 // ---- tiny EVM assembler -------------------------------------------------------
 
 func push(v int64) []byte {
